@@ -207,5 +207,147 @@ fn c16_select_storage_peers_3() {
     }
 }
 
+// f64::clamp facts assumed by the Verus float prelude (axiom_f_clamp): proved here on the real method,
+// bit-precisely, for every f64 and every pair of bounds (loop-free => complete).
+// @verif property=C16 class=complete fns=f64::clamp tier=quick,thorough
+#[kani::proof]
+fn c16_float_clamp_facts() {
+    let x: f64 = kani::any();
+    let lo: f64 = kani::any();
+    let hi: f64 = kani::any();
+    kani::assume(lo <= hi);
+    let r = x.clamp(lo, hi);
+    assert!(!x.is_nan() || r.is_nan(), "C16/float/clamp_keeps_nan");
+    assert!(x.is_nan() || (lo <= r && r <= hi), "C16/float/clamp_result_is_within_the_bounds");
+    assert!(!(lo <= x && x <= hi) || r.to_bits() == x.to_bits(), "C16/float/clamp_is_identity_inside_the_bounds");
+    assert!(!(x < lo) || r.to_bits() == lo.to_bits(), "C16/float/clamp_below_gives_the_lower_bound");
+    assert!(!(hi < x) || r.to_bits() == hi.to_bits(), "C16/float/clamp_above_gives_the_upper_bound");
+    assert!(x.is_nan() == !(x <= x), "C16/float/is_nan_iff_not_self_le");
+}
+
+// ---------------------------------------------------------------------------------------------
+// NATIVE FAILING-INPUT SEARCH for the selection clauses of C16 (executable form of the statement):
+// selections are distinct members of the candidates, at most the requested number; storage
+// selections never include a peer below the storage floor; a farther peer is never ranked ahead of
+// a closer one of equal trust (FULL 256-bit XOR distance), nor a less trusted ahead of a more trusted
+// one at equal distance. Candidate ids include ones that differ only in low-order bytes; trust
+// values include NaN and out-of-range values (the property's own quantifier).
+// ---------------------------------------------------------------------------------------------
+#[cfg(test)]
+mod search {
+    use super::*;
+
+    struct Rng(u64);
+    impl Rng {
+        fn next(&mut self) -> u64 {
+            self.0 ^= self.0 << 13;
+            self.0 ^= self.0 >> 7;
+            self.0 ^= self.0 << 17;
+            self.0
+        }
+        fn below(&mut self, n: u64) -> u64 {
+            self.next() % n
+        }
+    }
+    struct TableTrust(Vec<([u8; 32], f64)>);
+    impl TrustProvider for TableTrust {
+        fn get_trust(&self, node: &AdaptiveNodeId) -> f64 {
+            self.0.iter().find(|(i, _)| *i == node.hash).map(|(_, t)| *t).unwrap_or(0.0)
+        }
+        fn update_trust(&self, _from: &AdaptiveNodeId, _to: &AdaptiveNodeId, _success: bool) {}
+        fn get_global_trust(&self) -> std::collections::HashMap<AdaptiveNodeId, f64> {
+            Default::default()
+        }
+        fn remove_node(&self, _node: &AdaptiveNodeId) {}
+    }
+    const TRUST: [f64; 12] = [0.0, 0.1, 0.19, 0.2, 0.5, 0.9, 1.0, f64::NAN, -0.5, -3.0, 1.5, f64::INFINITY];
+    fn hex(b: &[u8; 32]) -> String {
+        b.iter().map(|x| format!("{:02x}", x)).collect()
+    }
+
+    #[test]
+    fn verif_search_c16_select() {
+        let seed: u64 = std::env::var("VERIF_SEED").ok().and_then(|s| s.parse().ok()).unwrap_or(0);
+        let mut r = Rng(0x9e37_79b9_7f4a_7c15 ^ seed.wrapping_mul(0x1000_0000_01b3) | 1);
+        let rounds: usize = std::env::var("VERIF_SEARCH_ROUNDS").ok().and_then(|s| s.parse().ok()).unwrap_or(4000);
+        for round in 0..rounds {
+            let mut key = [0u8; 32];
+            for b in key.iter_mut() {
+                *b = r.next() as u8;
+            }
+            let n = r.below(9) as usize;
+            let low_only = r.below(3) == 0; // ids that differ from the key only in the low-order 16 bytes
+            let in_range = r.below(2) == 0; // trust restricted to [0,1]
+            let mut table = Vec::new();
+            let mut cands = Vec::new();
+            for _ in 0..n {
+                let mut id = key;
+                let lo = if low_only { 16 } else { 0 };
+                for b in id[lo..].iter_mut() {
+                    if r.below(if low_only { 4 } else { 1 }) == 0 {
+                        *b = r.next() as u8;
+                    }
+                }
+                if table.iter().any(|(i, _): &([u8; 32], f64)| *i == id) {
+                    continue;
+                }
+                let t = if in_range { TRUST[r.below(7) as usize] } else { TRUST[r.below(12) as usize] };
+                // several candidates share a trust value often, so that the equal-trust clause is exercised
+                table.push((id, t));
+                cands.push(mk_node(id));
+            }
+            let storage = r.below(2) == 0;
+            let cfg = TrustSelectionConfig { trust_weight: [0.0, 0.3, 0.5, 1.0][r.below(4) as usize], min_trust_threshold: [0.0, 0.1, 0.2][r.below(3) as usize], exclude_untrusted: r.below(2) == 0 };
+            let sel = TrustAwarePeerSelector::with_storage_config(Arc::new(TableTrust(table.clone())), cfg.clone(), TrustSelectionConfig::for_storage());
+            let count = r.below(10) as usize;
+            let res = if storage { sel.select_storage_peers(&DhtKey::from_bytes(key), &cands, count) } else { sel.select_peers(&DhtKey::from_bytes(key), &cands, count) };
+            let used = if storage { TrustSelectionConfig::for_storage() } else { cfg.clone() };
+            let trust = |id: &[u8; 32]| table.iter().find(|(i, _)| i == id).map(|(_, t)| *t).unwrap_or(0.0);
+            let ctx = || format!("round={} key={} storage={} cfg={:?} count={} candidates=[{}] result=[{}]", round, hex(&key), storage, used, count,
+                table.iter().map(|(i, t)| format!("{}:{}", hex(i), t)).collect::<Vec<_>>().join(" "), res.iter().map(|x| hex(x.id.as_bytes())).collect::<Vec<_>>().join(" "));
+            if res.len() > count {
+                panic!("VERIF-SEARCH-HIT C16/select/at_most_the_requested_number {}", ctx());
+            }
+            for (a, x) in res.iter().enumerate() {
+                if !table.iter().any(|(i, _)| i == x.id.as_bytes()) {
+                    panic!("VERIF-SEARCH-HIT C16/select/members_of_the_candidates {}", ctx());
+                }
+                if res[..a].iter().any(|y| y.id == x.id) {
+                    panic!("VERIF-SEARCH-HIT C16/select/distinct {}", ctx());
+                }
+                if storage && !(trust(x.id.as_bytes()) >= 0.2) {
+                    panic!("VERIF-SEARCH-HIT C16/select/storage_never_below_the_storage_floor trust={} {}", trust(x.id.as_bytes()), ctx());
+                }
+                if used.exclude_untrusted && !(trust(x.id.as_bytes()) >= used.min_trust_threshold) {
+                    panic!("VERIF-SEARCH-HIT C16/select/never_below_the_trust_floor_when_excluding {}", ctx());
+                }
+            }
+            // ranking: over every pair (a ranked before b), and every selected a vs. every unselected candidate b
+            let rank = |id: &[u8; 32]| res.iter().position(|x| x.id.as_bytes() == id);
+            for (ia, ta) in &table {
+                for (ib, tb) in &table {
+                    let (ra, rb) = (rank(ia), rank(ib));
+                    // "ib is ranked ahead of ia": ib selected and (ia not selected or later)
+                    let b_ahead = match (ra, rb) {
+                        (_, None) => false,
+                        (None, Some(_)) => res.len() == count, // ia was left out although the answer is full
+                        (Some(x), Some(y)) => y < x,
+                    };
+                    if !b_ahead || ia == ib {
+                        continue;
+                    }
+                    let eligible = |t: f64| !t.is_nan() && (!used.exclude_untrusted || t >= used.min_trust_threshold);
+                    if !eligible(*ta) || !eligible(*tb) {
+                        continue;
+                    }
+                    if ta == tb && dist_lt(ia, ib, &key) {
+                        panic!("VERIF-SEARCH-HIT C16/select/closer_first_at_equal_trust farther={} ranked ahead of closer={} trust={} {}", hex(ib), hex(ia), ta, ctx());
+                    }
+                }
+            }
+        }
+    }
+}
+
 #[cfg(test)]
 include!("/verif/.build/replay/trust_peer_selector.rs");
